@@ -82,7 +82,10 @@ func buildPointerCodec(schema Schema, typ reflect.Type) (Codec, error) {
 	if err != nil {
 		return nil, err
 	}
-	return &PointerCodec{Codec: c}, nil
+	return &zeroPointerCodec{
+		PointerCodec: PointerCodec{Codec: c},
+		zero:         reflect.New(typ.Elem()).UnsafePointer(),
+	}, nil
 }
 
 func buildBoolCodec(typ reflect.Type, omit bool) (Codec, error) {
